@@ -58,7 +58,7 @@ typedef struct {
 } trace_t;
 static trace_t *TR;
 static const uint8_t *PREFIX; static int PREFLEN = 0;
-int icb_team_size = 4; int icb_alloc_points = 0; int icb_nested_size = 1; /* team size of nested regions (1 = serialised like libgomp's default) */ static int g_in_exec = 0;
+int icb_team_size = 4; int icb_alloc_points = 0; int icb_nested_size = 1; /* team size of nested regions (1 = serialised like libgomp's default) */ int icb_thread_limit = 0; /* > 0: a top-level region is delivered at most this many threads although omp_get_max_threads() and a num_threads clause say more (OMP_THREAD_LIMIT / dynamic adjustment) */ static int g_in_exec = 0;
 
 static void verdict(int v, const char *fmt, ...) {
   if (TR->verdict) return;
@@ -223,6 +223,7 @@ static void parallel_common(void (*fn)(void *), void *data, unsigned num_threads
   thr_t *t = &TH[CUR];
   int nested = 0; for (int i = 0; i < t->tcdepth; i++) if (t->tc[i].size > 1) nested = 1;
   int N = nested ? icb_nested_size : (num_threads ? (int)num_threads : icb_team_size);
+  if (!nested && icb_thread_limit > 0 && N > icb_thread_limit) N = icb_thread_limit;
   if (nested && t->tcdepth >= 2 && N > 1) { int deep = 0; for (int i = 0; i < t->tcdepth; i++) if (t->tc[i].size > 1) deep++; if (deep >= 2) N = 1; } /* at most two active levels */
   if (nteams >= 4096) { verdict(4, "too many teams"); return; }
   int team = nteams++; memset(&TEAMS[team], 0, sizeof TEAMS[team]); TEAMS[team].next = 1; TEAMS[team].count = nsections;
